@@ -244,10 +244,12 @@ Definition bytes_eqb (a b : list nat) : bool :=
 Definition size_of_self_toks : toks :=
   [P "::"; I "core"; P "::"; I "mem"; P "::"; I "size_of"; P "::"; P "<"; I "Self"; P ">"].
 
-(** `*const T` *)
+(** `*const T`, `*const ::core::primitive::T` *)
 Definition is_const_ptr_ty (ty : toks) : bool :=
   match ty with
   | [TPunct "*"; TIdent "const"; TIdent _] => true
+  | [TPunct "*"; TIdent "const"; TPunct "::"; TIdent "core"; TPunct "::"; TIdent "primitive";
+     TPunct "::"; TIdent _] => true
   | _ => false
   end.
 
